@@ -727,8 +727,10 @@ fn btrace(a: u128) -> u128 { let (mut t, mut x) = (0u128, a); for _ in 0..127 { 
 fn bhalftrace(a: u128) -> u128 { let (mut t, mut x) = (0u128, a); for i in 0..64 { t ^= x; if i < 63 { x = bsq(bsq(x)); } } t }
 type B2 = (u128, u128);
 fn b2mul(a: B2, b: B2) -> B2 { let t = bmul(a.1, b.1); (bmul(a.0, b.0) ^ t, bmul(a.0, b.1) ^ bmul(a.1, b.0) ^ t) }
-fn b2xsq(mut a: B2, n: u32) -> B2 { for _ in 0..n { a = b2mul(a, a); } a }
-fn b2trace(a: B2) -> B2 { let (mut t, mut x) = ((0u128, 0u128), a); for _ in 0..254 { t = (t.0 ^ x.0, t.1 ^ x.1); x = b2mul(x, x); } t }
+/// (a0 + a1*u)^2 = a0^2 + a1^2*(u + 1)
+fn b2sq(a: B2) -> B2 { let t = bsq(a.1); (bsq(a.0) ^ t, t) }
+fn b2xsq(mut a: B2, n: u32) -> B2 { for _ in 0..n { a = b2sq(a); } a }
+fn b2trace(a: B2) -> B2 { let (mut t, mut x) = ((0u128, 0u128), a); for _ in 0..254 { t = (t.0 ^ x.0, t.1 ^ x.1); x = b2sq(x); } t }
 
 fn u128of(b: &[u8]) -> u128 { u128::from_le_bytes(b[..16].try_into().unwrap()) }
 fn b1(b: &[u8]) -> GFb127 { GFb127::w64le(u64of(b), u64of(&b[8..])) }
@@ -900,6 +902,7 @@ fn reg_b254(v: &mut Vec<Case>) {
         chk(n.1 == 0 && g == n.0, || format!("mul_selfphi: got {:032x} want {:x?}", g, n)) });
     case!("square", "square(a) == a*a; xsquare(a,n) == a^(2^n) (n mod 70)", vec![e2.clone(), Op::U32], |o| {
         let a = b2(o[0]); let x = b2in(o[0]); let n = u32of(o[1]) % 70;
+        chk(b2sq(x) == b2mul(x, x), || "reference square != reference product".to_string())?;
         all(&[a.square()], b2mul(x, x), "square")?; all(&[a.xsquare(n)], b2xsq(x, n), "xsquare") });
     case!("div", "(a/b)*b == a for b != 0, a/0 == 0; invert(b)*b == 1, invert(0) == 0; all operator forms", vec![e2.clone(), e2.clone()], |o| {
         let (a, b) = (b2(o[0]), b2(o[1])); let (x, y) = (b2in(o[0]), b2in(o[1])); let yz = y == (0, 0);
